@@ -470,4 +470,180 @@ theorem serviceConnect_ok (c : Client) (ans : Nat → Nat) (ha : c.accepted = fa
   rw [if_neg hcond]
   exact hacc
 
+/-! ### the TLS client -/
+
+/-- TLS invariant: connected only when accepted, and the inherited address invariant -/
+def TlsInv (t : Tls) : Prop := (t.connected = true → t.c.accepted = true) ∧ AddrInv t.c
+
+theorem tlsInv_of_not (t : Tls) (h1 : t.connected = false) (h2 : t.c.accepted = false) : TlsInv t := by
+  unfold TlsInv AddrInv
+  refine ⟨?_, ?_⟩
+  · intro hh; rw [h1] at hh; cases hh
+  · intro hh; rw [h2] at hh; cases hh
+
+theorem tlsClose_spec (t : Tls) (h : TlsInv t) :
+    TlsInv (tlsClose t).1 ∧ (t.c.sock.isSome = true → (tlsClose t).1.connected = false ∧ (tlsClose t).1.c.accepted = false) := by
+  unfold tlsClose
+  cases hs : t.c.sock with
+  | none => exact ⟨h, by intro hh; cases hh⟩
+  | some id =>
+    simp only [close, hs]
+    exact ⟨tlsInv_of_not _ rfl rfl, by simp⟩
+
+theorem tlsOpen_spec (t : Tls) :
+    TlsInv (tlsOpen t).1 ∧ (tlsOpen t).1.connected = false ∧ (tlsOpen t).1.c.accepted = false ∧
+    (tlsOpen t).1.c.cutoff = false ∧ (tlsOpen t).1.c.sock = some t.c.fresh := by
+  unfold tlsOpen openSock
+  exact ⟨tlsInv_of_not _ rfl rfl, rfl, rfl, rfl, rfl⟩
+
+theorem tlsReopen_clears (t : Tls) :
+    (tlsReopen t).1.connected = false ∧ (tlsReopen t).1.c.accepted = false ∧ (tlsReopen t).1.c.cutoff = false ∧
+    (∃ id, (tlsReopen t).1.c.sock = some id) ∧ TlsInv (tlsReopen t).1 := by
+  unfold tlsReopen
+  generalize tlsClose t = r
+  obtain ⟨t1, e1⟩ := r
+  obtain ⟨i, a, b, c, d⟩ := tlsOpen_spec t1
+  simp only
+  generalize tlsOpen t1 = r2 at i a b c d
+  obtain ⟨t2, e2⟩ := r2
+  exact ⟨a, b, c, ⟨_, d⟩, i⟩
+
+theorem tlsReopenRestart_spec (t : Tls) (d : Option Int) :
+    (tlsReopenRestart t d).1.connected = false ∧ (tlsReopenRestart t d).1.c.accepted = false ∧
+    (tlsReopenRestart t d).1.c.cutoff = false ∧ TlsInv (tlsReopenRestart t d).1 := by
+  unfold tlsReopenRestart
+  obtain ⟨a, b, c, _, i⟩ := tlsReopen_clears t
+  generalize tlsReopen t = r at a b c i
+  obtain ⟨t1, e1⟩ := r
+  simp only at a b c i ⊢
+  exact ⟨a, b, c, tlsInv_of_not _ a b⟩
+
+theorem tlsCutoffPart_inv (t : Tls) (d : Option Int) (h : TlsInv t) : TlsInv (tlsCutoffPart t d).1 := by
+  unfold tlsCutoffPart
+  split
+  · exact (tlsReopenRestart_spec t d).2.2.2
+  · exact h
+
+theorem tlsConnect_inv (t : Tls) (ans : Nat → Nat) (hs : Nat → Shake) (h : TlsInv t) :
+    TlsInv (tlsConnect t ans hs).1 := by
+  unfold tlsConnect
+  -- the accept part
+  have h1 : TlsInv (if (!t.c.accepted) = true then
+        ((⟨(accept t.c ans).1, if ((accept t.c ans).1.sock == t.c.sock) = true then t.connected else false,
+           if ((accept t.c ans).1.sock == t.c.sock) = true then t.shakes else 0⟩ : Tls),
+         (accept t.c ans).2.map TEvent.base)
+      else (t, [])).1 := by
+    by_cases ha : t.c.accepted = true
+    · simp only [ha, Bool.not_true, Bool.false_eq_true, if_false]; exact h
+    · have ha' : t.c.accepted = false := by simpa using ha
+      have hc : t.connected = false := by
+        cases hcc : t.connected with
+        | false => rfl
+        | true => exact absurd (h.1 hcc) ha
+      simp only [ha', Bool.not_false, if_true, hc, ite_self]
+      unfold TlsInv
+      exact ⟨(by intro hh; cases hh), accept_addr t.c ans h.2⟩
+  generalize (if (!t.c.accepted) = true then
+        ((⟨(accept t.c ans).1, if ((accept t.c ans).1.sock == t.c.sock) = true then t.connected else false,
+           if ((accept t.c ans).1.sock == t.c.sock) = true then t.shakes else 0⟩ : Tls),
+         (accept t.c ans).2.map TEvent.base)
+      else (t, [])) = r at h1
+  obtain ⟨t1, e1⟩ := r
+  simp only at h1 ⊢
+  split
+  · rename_i hcond
+    simp only [Bool.and_eq_true, Bool.not_eq_true'] at hcond
+    cases hsock : t1.c.sock with
+    | none => exact h1
+    | some id =>
+      simp only
+      cases hs t1.shakes with
+      | ok => exact ⟨fun _ => hcond.1, h1.2⟩
+      | want => exact ⟨(by intro hh; simp only at hh; rw [hcond.2] at hh; cases hh), h1.2⟩
+      | fail =>
+        simp only
+        have := (tlsClose_spec { t1 with shakes := t1.shakes + 1 }
+          ⟨(by intro hh; simp only at hh; rw [hcond.2] at hh; cases hh), h1.2⟩).1
+        generalize tlsClose { t1 with shakes := t1.shakes + 1 } = r3 at this
+        obtain ⟨t3, e3⟩ := r3
+        exact this
+  · exact h1
+
+theorem tlsServiceConnect_inv (t : Tls) (ans : Nat → Nat) (hs : Nat → Shake) (h : TlsInv t) :
+    TlsInv (tlsServiceConnect t ans hs).1 := by
+  unfold tlsServiceConnect
+  have h0 := tlsCutoffPart_inv t none h
+  generalize tlsCutoffPart t none = r0 at h0
+  obtain ⟨t0, e0⟩ := r0
+  simp only at h0 ⊢
+  split
+  · have h1 := tlsConnect_inv t0 ans hs h0
+    generalize tlsConnect t0 ans hs = r1 at h1
+    obtain ⟨t1, e1, raised⟩ := r1
+    simp only at h1 ⊢
+    split
+    · exact h1
+    · split
+      · exact (tlsReopenRestart_spec t1 none).2.2.2
+      · exact h1
+  · exact h0
+
+theorem tlsStack_inv (t : Tls) (ans : Nat → Nat) (hs : Nat → Shake) (h : TlsInv t) :
+    TlsInv (tlsStackServiceConnect t ans hs).1 := by
+  unfold tlsStackServiceConnect
+  split
+  · exact tlsCutoffPart_inv t none h
+  · split
+    · have h1 := tlsServiceConnect_inv t ans hs h
+      generalize tlsServiceConnect t ans hs = r at h1
+      obtain ⟨t1, e1⟩ := r
+      simp only at h1 ⊢
+      split
+      · exact ⟨h1.1, h1.2⟩
+      · exact h1
+    · exact h
+
+theorem tlsPatron_inv (t : Tls) (ans : Nat → Nat) (hs : Nat → Shake) (h : TlsInv t) :
+    TlsInv (tlsPatronConnect t ans hs).1 := by
+  unfold tlsPatronConnect
+  have h1 := tlsCutoffPart_inv t t.c.retry h
+  generalize tlsCutoffPart t t.c.retry = r at h1
+  obtain ⟨t1, e1⟩ := r
+  simp only at h1 ⊢
+  split
+  · have h2 := tlsServiceConnect_inv t1 ans hs h1
+    generalize tlsServiceConnect t1 ans hs = r2 at h2
+    obtain ⟨t2, e2⟩ := r2
+    exact h2
+  · exact h1
+
+theorem tstep_inv (t : Tls) (op : TOp) (h : TlsInv t) : TlsInv (tstep t op).1 := by
+  cases op with
+  | advance dt => exact h
+  | clientServiceConnect code a => exact tlsServiceConnect_inv t _ _ h
+  | stackServiceConnect code a => exact tlsStack_inv t _ _ h
+  | patronConnect code a => exact tlsPatron_inv t _ _ h
+  | loss =>
+    simp only [tstep]
+    split
+    · exact h
+    · exact h
+  | close => exact (tlsClose_spec t h).1
+  | reopen => exact (tlsReopen_clears t).2.2.2.2
+
+theorem trun_inv (ops : List TOp) : ∀ (t : Tls), TlsInv t → TlsInv (trun t ops).1 := by
+  induction ops with
+  | nil => intro t h; exact h
+  | cons op ops ih =>
+    intro t h
+    have := ih (tstep t op).1 (tstep_inv t op h)
+    simpa [trun] using this
+
+theorem tlsReopen_fst (t : Tls) :
+    (tlsReopen t).1 = ⟨{ t.c with accepted := false, cutoff := false, sock := some t.c.fresh, fresh := t.c.fresh + 1,
+                                  attempts := 0, opened := true }, false, 0⟩ := by
+  unfold tlsReopen tlsClose tlsOpen close openSock
+  cases h : t.c.sock <;> simp
+
+
 end Ioflo.Reconnect
